@@ -1208,7 +1208,8 @@ impl Loader {
 
         // Synchronize compilation across threads/processes using an atomic lock
         // file. Exactly one caller wins the race to compile. Losers wait for the
-        // lock file to be removed, then skip compilation and proceed to loading.
+        // lock file to be removed, then check again whether the library is up to
+        // date: if so they proceed to loading, otherwise they retry the lock.
         //
         // Loading only (`recompile == false`) doesn't need a lock because
         // `compile_parser_to_dylib` writes to a temp file and atomically renames
@@ -1216,14 +1217,39 @@ impl Loader {
         // new or previous copy).
         //
         // The `LockFile` ensures cleanup on drop, and stale locks from killed
-        // processes are detected via a timeout in `wait_for_removal`.
+        // processes are detected via a timeout in `wait_for_removal` and removed.
         if recompile {
             let parent_path = lock_path.parent().unwrap();
             fs::create_dir_all(parent_path)
                 .map_err(|e| LoaderError::IO(IoError::new(e, Some(parent_path))))?;
 
-            verif::point("lock");
-            match LockFile::create(&lock_path)? {
+            // Take the lock, or wait until whoever holds it is done. A lock that outlives
+            // the timeout was left behind by a killed process: remove it and try again.
+            // Once the lock is gone its owner may still have failed (or died) before
+            // producing the library, so only skip compiling if it is up to date by now.
+            let lock = loop {
+                verif::point("lock");
+                if let Some(lock) = LockFile::create(&lock_path)? {
+                    break Some(lock);
+                }
+                match LockFile::wait_for_removal(&lock_path, Duration::from_secs(30)) {
+                    Ok(()) => {}
+                    Err(LoaderError::LockFileTimeout(_)) => match fs::remove_file(&lock_path) {
+                        Ok(()) => {}
+                        Err(e) if e.kind() == std::io::ErrorKind::NotFound => {}
+                        Err(e) => {
+                            return Err(LoaderError::IO(IoError::new(e, Some(lock_path.as_path()))))
+                        }
+                    },
+                    Err(e) => return Err(e),
+                }
+                verif::point("check");
+                if !needs_recompile(&output_path, &paths_to_check)? {
+                    break None;
+                }
+            };
+
+            match lock {
                 Some(_lock) => {
                     // We won the race, so compile with the lock.
                     let compile_wasm;
@@ -1257,9 +1283,8 @@ impl Loader {
                     verif::point("unlock");
                     // _lock dropped here, removing the lock file.
                 }
-                // Another thread/process is compiling (or a previous run
-                // crashed and left a stale lock). Wait for it to finish.
-                None => LockFile::wait_for_removal(&lock_path, Duration::from_secs(30))?,
+                // Another thread/process compiled the library while we were waiting.
+                None => {}
             }
         }
 
